@@ -151,7 +151,12 @@ def gen_case(rng, tier):
                 else:
                     op['val'] = invalid_value(rng)
             elif name in ('update', 'difference_update'):
-                if rng.random() < 0.3:
+                small = [j for j in us_idx if B.popcount(models[j][1]) <= 3000]
+                if small and rng.random() < 0.3:
+                    # an iterable over another member of the pool, or a live one over the receiver itself
+                    op = {'op': name, 'obj': i, 'other': i if (i in small and rng.random() < 0.6) else rng.choice(small),
+                          'wrap': rng.choice(['gen', 'iter', 'list', 'filter'])}
+                elif rng.random() < 0.3:
                     op = {'op': name, 'obj': i, 'text': charset_string(rng)}
                 else:
                     op = {'op': name, 'obj': i, 'vals': [pick_value(rng, m) for _ in range(rng.choice([1, 2, 3, 5]))]}
@@ -259,6 +264,8 @@ def apply_model(op, models):
 
     def operand():
         if 'other' in op:
+            if op.get('wrap') == 'filter':
+                return sum(1 << c for a, b in B.intervals(get(op['other'])) for c in range(a, b) if c % 2 == 0)
             return get(op['other'])
         if 'shared' in op:
             b = shared_bits(op['shared'])
@@ -484,7 +491,17 @@ def run_case(case, world):
 
         def operand():
             if 'other' in op:
-                return objs[op['other'] % len(objs)]
+                ob = objs[op['other'] % len(objs)]
+                w = op.get('wrap')
+                if w == 'gen':
+                    return (x for x in ob)
+                if w == 'iter':
+                    return iter(ob)
+                if w == 'list':
+                    return list(ob)
+                if w == 'filter':
+                    return (x for x in ob if x % 2 == 0)
+                return ob
             if 'shared' in op:
                 return shared_obj(op['shared'])
             if 'vals' in op:
@@ -544,6 +561,29 @@ def run_case(case, world):
                     if rv != it[::-1]:
                         violate('SET_MISMATCH', 'reversed', 'reversed() is not the reverse of iteration: %r vs %r' % (
                             rv[:8], it[::-1][:8]), feats)
+                if len(B.intervals(m)) <= 40 and type(o).__name__ == 'UnicodeSubset':
+                    # the character-class text of the subset (what translate_pattern puts between brackets) denotes
+                    # the same set: parsed back by UnicodeSubset and compiled by re
+                    text = str(o)
+                    try:
+                        back = B.from_codepoints(list(UnicodeSubset(text).codepoints)) if hasattr(o, 'codepoints') else \
+                            sum(1 << c for c in UnicodeSubset(text))
+                    except Exception as e:
+                        back = repr(e)
+                    if back != m:
+                        violate('SET_MISMATCH', 'text', 'str() gives %r, which UnicodeSubset() reads as %s' % (
+                            text[:80], B.intervals(back)[:6] if isinstance(back, int) else back), feats)
+                    else:
+                        import re as _re
+                        try:
+                            pat = _re.compile('[%s]' % text) if text else None
+                            pts = sorted(p_ for p_ in B.boundary_points(m, 40) if p_ < 0x110000 and not 0xd800 <= p_ <= 0xdfff)
+                            wrong = [p_ for p_ in pts if ((pat.fullmatch(chr(p_)) is not None) if pat else False) != bool((m >> p_) & 1)]
+                        except Exception as e:
+                            wrong = [repr(e)]
+                        if wrong:
+                            violate('SET_MISMATCH', 'text-regex', 'the class [%s] compiled by re disagrees with the set on %r' % (
+                                text[:80], wrong[:6]), feats)
             elif name == 'cc-new':
                 objs.append(CharacterClass(op['text']))
             elif name in ('cc-add', 'cc-discard'):
